@@ -19,10 +19,10 @@ CONSTANTS
   CountA = 300
   CountB = 301
   Suffix = 60000
-  Dev = {}
+  Dev = {"hash_probe"}
 INIT HInit
 NEXT HNext
-INVARIANT NoUsable
+INVARIANT SolvedCollides
 INVARIANT Valid
 INVARIANT OwnTraits
 INVARIANT DistinctDefsDistinctTraits
